@@ -160,9 +160,10 @@ Record request := mkReq {
 Inductive call :=
 | CallDeriveLvl1 (proto src dst : N)   (* Engine.DeriveLevel1 *)
 | CallGetLvl1 (proto src dst : N)      (* Engine.GetLevel1Key *)
-| CallASHost (proto src dst : N)       (* Engine.DeriveASHost, hosts as named in the request *)
-| CallHostAS (proto src dst : N)
-| CallHostHost (proto src dst : N)
+| CallASHost (proto src dst : N) (dstHost : ip)     (* Engine.DeriveASHost; host = net.ParseIP of
+                                                       the host string handed to the engine *)
+| CallHostAS (proto src dst : N) (srcHost : ip)
+| CallHostHost (proto src dst : N) (srcHost dstHost : ip)
 | CallSV (proto : N).
 
 Definition present (p : peer_addr) : bool := match p with PAbsent => false | _ => true end.
@@ -190,21 +191,21 @@ Definition serve_as_host (localIA : N) (p : peer_addr) (q : request) : option ca
   if negb (q_ts_ok q) then None else
   let proto := proto_of_pb (q_proto q) in
   if validate_as_host proto (q_dst q) (q_dsth q) localIA p
-  then Some (CallASHost proto (q_src q) (q_dst q)) else None.
+  then Some (CallASHost proto (q_src q) (q_dst q) (q_dsth q)) else None.
 
 Definition serve_host_as (localIA : N) (p : peer_addr) (q : request) : option call :=
   if negb (present p) then None else
   if negb (q_ts_ok q) then None else
   let proto := proto_of_pb (q_proto q) in
   if validate_host_as proto (q_src q) (q_srch q) localIA p
-  then Some (CallHostAS proto (q_src q) (q_dst q)) else None.
+  then Some (CallHostAS proto (q_src q) (q_dst q) (q_srch q)) else None.
 
 Definition serve_host_host (localIA : N) (p : peer_addr) (q : request) : option call :=
   if negb (present p) then None else
   if negb (q_ts_ok q) then None else
   let proto := proto_of_pb (q_proto q) in
   if validate_host_host proto (q_src q) (q_dst q) (q_srch q) (q_dsth q) localIA p
-  then Some (CallHostHost proto (q_src q) (q_dst q)) else None.
+  then Some (CallHostHost proto (q_src q) (q_dst q) (q_srch q) (q_dsth q)) else None.
 
 Definition serve_sv (s : allowed_set) (p : peer_addr) (q : request) : option call :=
   if negb (present p) then None else
@@ -241,10 +242,12 @@ Definition peer_allowed (s : allowed_set) (p : peer_addr) (proto : N) : bool :=
 Definition call_eqb (x y : call) : bool :=
   match x, y with
   | CallDeriveLvl1 a b c, CallDeriveLvl1 a' b' c'
-  | CallGetLvl1 a b c, CallGetLvl1 a' b' c'
-  | CallASHost a b c, CallASHost a' b' c'
-  | CallHostAS a b c, CallHostAS a' b' c'
-  | CallHostHost a b c, CallHostHost a' b' c' => (a =? a') && (b =? b') && (c =? c')
+  | CallGetLvl1 a b c, CallGetLvl1 a' b' c' => (a =? a') && (b =? b') && (c =? c')
+  | CallASHost a b c h, CallASHost a' b' c' h'
+  | CallHostAS a b c h, CallHostAS a' b' c' h' =>
+    (a =? a') && (b =? b') && (c =? c') && bytes_eqb h h'
+  | CallHostHost a b c h g, CallHostHost a' b' c' h' g' =>
+    (a =? a') && (b =? b') && (c =? c') && bytes_eqb h h' && bytes_eqb g g'
   | CallSV a, CallSV a' => a =? a'
   | _, _ => false
   end.
@@ -266,13 +269,13 @@ Definition serve_ok (ep : endpoint) (localIA : N) (s : allowed_set) (p : peer_ad
       call_eqb c (CallGetLvl1 proto (q_src q) (q_dst q)) &&
       ((localIA =? q_src q) || (localIA =? q_dst q)) && peer_allowed s p proto
     | EASHost =>
-      call_eqb c (CallASHost proto (q_src q) (q_dst q)) &&
+      call_eqb c (CallASHost proto (q_src q) (q_dst q) (q_dsth q)) &&
       negb (proto =? generic) && (q_dst q =? localIA) && peer_is p (q_dsth q)
     | EHostAS =>
-      call_eqb c (CallHostAS proto (q_src q) (q_dst q)) &&
+      call_eqb c (CallHostAS proto (q_src q) (q_dst q) (q_srch q)) &&
       negb (proto =? generic) && (q_src q =? localIA) && peer_is p (q_srch q)
     | EHostHost =>
-      call_eqb c (CallHostHost proto (q_src q) (q_dst q)) &&
+      call_eqb c (CallHostHost proto (q_src q) (q_dst q) (q_srch q) (q_dsth q)) &&
       negb (proto =? generic) &&
       (((q_src q =? localIA) && peer_is p (q_srch q)) || ((q_dst q =? localIA) && peer_is p (q_dsth q)))
     | ESV =>
@@ -342,9 +345,9 @@ Definition code_of_call (c : call) : list N :=
   match c with
   | CallDeriveLvl1 a b d => [1; a; b; d]
   | CallGetLvl1 a b d => [2; a; b; d]
-  | CallASHost a b d => [3; a; b; d]
-  | CallHostAS a b d => [4; a; b; d]
-  | CallHostHost a b d => [5; a; b; d]
+  | CallASHost a b d h => [3; a; b; d] ++ h
+  | CallHostAS a b d h => [4; a; b; d] ++ h
+  | CallHostHost a b d h g => [5; a; b; d] ++ h ++ g
   | CallSV a => [6; a]
   end.
 
